@@ -341,6 +341,15 @@ func (e *execEngine) step(ws []string) string {
 		return fmt.Sprintf("ok h=%d", e.nodes[0].exec.VerifHeight())
 	case "block":
 		return e.block(ws[1:])
+	case "reorg": // reorg <height> <txs...> : consensus delivers another block for a height the node has already executed
+		if len(ws) < 2 || len(e.nodes) == 0 {
+			return "bad-op"
+		}
+		h, err := strconv.ParseUint(ws[1], 10, 64)
+		if err != nil || h < 2 || h > e.nodes[0].exec.VerifHeight() {
+			return "bad-op"
+		}
+		return e.blockAt(h, ws[2:])
 	case "q":
 		return e.query(ws[1:]) + e.pipeDrain(0)
 	case "restart":
@@ -591,7 +600,9 @@ func (e *execEngine) buildTx(n *node, t []string) (pb.Transaction, bool, error) 
 	return nil, false, fmt.Errorf("unknown tx kind %s", t[0])
 }
 
-func (e *execEngine) block(ws []string) string {
+func (e *execEngine) block(ws []string) string { return e.blockAt(0, ws) }
+
+func (e *execEngine) blockAt(at uint64, ws []string) string {
 	if len(e.nodes) == 0 {
 		return "bad-op"
 	}
@@ -621,7 +632,11 @@ func (e *execEngine) block(ws []string) string {
 	for i, n := range e.nodes {
 		// deep copy of the txs for each replica: the executor mutates blocks
 		cp := copyTxs(txs)
-		n.execBlock(cp, local)
+		if at == 0 {
+			n.execBlock(cp, local)
+		} else {
+			n.execBlockAt(at, cp, local)
+		}
 		res[i] = blockObs(n, n.exec.VerifHeight(), cp)
 	}
 	out := res[0]
@@ -725,11 +740,23 @@ func blockObs(n *node, h uint64, txs []pb.Transaction) string {
 		msRaw = append(msRaw, k+":["+strings.Join(meta.MultiTxCounter[k].Slice, ",")+"]")
 		ms = append(ms, k+":["+strings.Join(sortedCopy(meta.MultiTxCounter[k].Slice), ",")+"]")
 	}
-	return fmt.Sprintf("h=%d rc=[%s] counter={%s} timeout={%s} multi={%s} ## rawtimeout={%s} rawmulti={%s} hash=%s sroot=%s troot=%s rroot=%s toroot=%s gas=[%s]",
+	// the hash link, read back from the store: the parent hash of block h is the hash of the stored block h-1, and the chain
+	// meta names block h
+	plink := "ok"
+	if h > 1 {
+		if prev, err := n.ldg.GetBlock(h-1, false); err != nil || blk.BlockHeader.ParentHash == nil || prev.BlockHash.String() != blk.BlockHeader.ParentHash.String() {
+			plink = "bad"
+		}
+	}
+	// (a pipelined replica is read one block later: its chain meta may already be further on)
+	if m := n.ldg.GetChainMeta(); m.Height < h || (m.Height == h && m.BlockHash.String() != blk.BlockHash.String()) {
+		plink += "+meta"
+	}
+	return fmt.Sprintf("h=%d rc=[%s] counter={%s} timeout={%s} multi={%s} ## rawtimeout={%s} rawmulti={%s} hash=%s sroot=%s troot=%s rroot=%s toroot=%s gas=[%s] plink=%s",
 		h, strings.Join(rc, " "), strings.Join(cs, ";"), strings.Join(ts, ";"), strings.Join(ms, ";"),
 		strings.Join(tsRaw, ";"), strings.Join(msRaw, ";"),
 		short(blk.BlockHash), short(blk.BlockHeader.StateRoot), short(blk.BlockHeader.TxRoot), short(blk.BlockHeader.ReceiptRoot), short(blk.BlockHeader.TimeoutRoot),
-		strings.Join(gas, ","))
+		strings.Join(gas, ","), plink)
 }
 
 func sortedCopy(l []string) []string {
